@@ -1,6 +1,7 @@
 package props
 
 import (
+	"context"
 	"fmt"
 	"math/rand"
 	"strings"
@@ -10,6 +11,7 @@ import (
 
 	"verif/harness/core"
 	"verif/harness/env"
+	"verif/harness/sim"
 	"verif/harness/verify"
 )
 
@@ -48,8 +50,36 @@ func c03CaseWL(r *core.Run, wl string, idx int, rng *rand.Rand) {
 			r.Count("preceded_by_failed_callback", 1)
 		}
 	}
+	// in the failing-lookup workload the user lookup of this callback fails: early, late, or after part of the record
+	lookupFault := ""
+	if wl == "callback_failing_user_lookup" {
+		lookupFault = []string{"error_fast_key_slow", "partial_then_error_late", "partial_then_error", "error"}[idx%4]
+		kind := sim.FaultError
+		if strings.HasPrefix(lookupFault, "partial") {
+			kind = sim.FaultPartial
+		}
+		if lookupFault == "partial_then_error_late" {
+			e.W.PartialDelay = 25 * time.Millisecond
+		}
+		if lookupFault == "error_fast_key_slow" {
+			e.W.Before = func(_ context.Context, _, op string, _ int) {
+				if op == "GetResponseSigningKey" {
+					time.Sleep(25 * time.Millisecond)
+				}
+			}
+		}
+		e.W.Plan = func(tag, op string, occ int) string {
+			if op == "SetUserinfoWithUserID" {
+				return kind
+			}
+			return ""
+		}
+	}
 	call := sc.callback(e)
 	class := fmt.Sprintf("%s|layout=%q|host=%v|acs_empty=%v", sc.S.Binding[strings.LastIndex(sc.S.Binding, ":")+1:], sc.Opts.TimeFormat, sc.Host != "", sc.S.ACS == "")
+	if lookupFault != "" {
+		class += "|user_lookup=" + lookupFault
+	}
 	desc := map[string]any{"stored_request": sc.S, "user": sc.U, "audience": sc.Audience, "host": sc.Host, "opts": map[string]any{"time_format": sc.Opts.TimeFormat, "host_path": sc.Opts.HostPath, "sig_alg": sc.Opts.SigAlg}}
 	viol := func(clause, reason string) {
 		r.Violate(core.Violation{Clause: clause, Class: class, Reason: reason, Workload: wl, Index: idx, Case: desc, Observed: call.Describe()})
@@ -57,6 +87,16 @@ func c03CaseWL(r *core.Run, wl string, idx int, rng *rand.Rand) {
 	r.Eval(fmt.Sprintf("%s|%d|%d|%v|%v", class, len(sc.U.Custom), len(refAttributes(sc.U)), sc.S.RelayState == "", hasC14NSpecial(sc.S.AuthRequestID+sc.S.ACS, true)))
 	if call.Panic != "" {
 		viol("panic", call.Panic)
+		return
+	}
+	if mut := e.W.Mutated(); mut != "" {
+		viol("storage_record_changed", mut)
+	}
+	if lookupFault != "" {
+		r.Count("callbacks_with_failing_user_lookup", 1)
+		if call.D.Success() {
+			viol("success_with_incomplete_user_record", "Success response although the lookup of the user's data failed ("+lookupFault+"): NameID and attribute statement cannot be exactly the user's data")
+		}
 		return
 	}
 	if !call.D.Success() {
@@ -108,7 +148,7 @@ func init() {
 		TimeoutQuick: 5 * time.Minute, TimeoutThorough: 30 * time.Minute,
 		Build: func(c *Ctx) []core.Workload {
 			r := c.Run
-			r.Rule = "each case stores a completed request S (request ID, consumer URL, RelayState, application id drawn from legal XML characters incl. metacharacters, CR/LF/TAB, blanks, non-ASCII) and a user U (each standard attribute set/unset, 0-4 custom attributes with 0-3 values) under a random configuration (binding, static or host-derived issuer, time layout, signature algorithm), calls the login callback and compares every field of the decoded Success response - extracted twice, with etree and with expat - with a reference record computed by the harness. The workload is repeated with the process time zone set to +02:00 and -05:00. Distinct = (binding, layout, issuer mode, attribute counts, special characters present)."
+			r.Rule = "each case stores a completed request S (request ID, consumer URL, RelayState, application id drawn from legal XML characters incl. metacharacters, CR/LF/TAB, blanks, non-ASCII) and a user U (each standard attribute set/unset, 0-4 custom attributes with 0-3 values) under a random configuration (binding, static or host-derived issuer, time layout, signature algorithm), calls the login callback and compares every field of the decoded Success response - extracted twice, with etree and with expat - with a reference record computed by the harness. The workload is repeated with the process time zone set to +02:00 and -05:00. A further workload lets the user lookup of the callback fail (at once, late, after part of the record was delivered, with a slow key lookup): no Success may then be issued; the storage's user records are compared with their registered state after every case. Distinct = (binding, layout, issuer mode, attribute counts, special characters present)."
 			r.Assume("RelayState in auto-submit forms is compared modulo CR/CRLF -> LF (HTML newline normalisation is parser dependent)")
 			r.Assume("IssueInstant is judged against the wall-clock bracket around the call with 1 s slack")
 			r.Require("success_replies", int64(c.Pick(500, 6000)))
@@ -117,6 +157,7 @@ func init() {
 			r.Require("delivery_redirect", 50)
 			r.Require("delivery_xml-body", 5)
 			r.Require("preceded_by_failed_callback", 50)
+			r.Require("callbacks_with_failing_user_lookup", 100)
 			zone := func(name string, off int) func() {
 				return func() {
 					if off == 0 {
@@ -130,6 +171,7 @@ func init() {
 				{Name: "callback_success", N: c.Pick(700, 8000), Before: zone("UTC", 0), Fn: c03Case},
 				// the process time zone must not leak into the (UTC) instants of the assertion
 				{Name: "callback_success_tz_plus2", N: c.Pick(100, 1000), Before: zone("P2", 2*3600), Fn: func(r *core.Run, idx int, rng *rand.Rand) { c03CaseWL(r, "callback_success_tz_plus2", idx, rng) }},
+				{Name: "callback_failing_user_lookup", N: c.Pick(120, 800), Before: zone("UTC", 0), Fn: func(r *core.Run, idx int, rng *rand.Rand) { c03CaseWL(r, "callback_failing_user_lookup", idx, rng) }},
 				{Name: "callback_success_tz_minus5", N: c.Pick(100, 1000), Before: zone("M5", -5*3600), Fn: func(r *core.Run, idx int, rng *rand.Rand) { c03CaseWL(r, "callback_success_tz_minus5", idx, rng) }},
 			}
 		},
